@@ -40,14 +40,12 @@ LEVEL_TEXT = ("Kernel-checked Lean theorems about the discovered-participant boo
               "add_discovered_participant, the stamp refresh on every received change, remove_stale_participants with its one-at-a-time "
               "loop, remove_discovered_participant, ignore_participant), for ALL states, announcements, times and step sequences: an "
               "announcement with another domain id or tag changes nothing and triggers no answer (C17_isolation, C17_isolation_keys); one with "
-              "matching id/tag (or without id) from a non-ignored participant leaves it listed (C17_discover); a lease check keeps every "
+              "matching id/tag (or without id) from a non-ignored participant leaves it listed with the announced lease and the reception time (C17_discover); a lease check keeps every "
               "participant heard within its lease and nothing but a stale lease check, ignore or dispose ever removes anybody "
               "(C17_lease_lower, C17_removed_only_by, on states without duplicate keys, which are all reachable states: C17_keys_unique); "
               "after a lease check nobody older than its lease is listed (C17_lease_upper, C17_lease_upper_key: with checks at most p apart "
               "a silent participant is gone by lastSeen + lease + p); an ignored participant is never listed again along any continuation "
-              "(C17_ignored_forever). One deviation from the specification is recorded as an open finding with a Lean witness: the lease "
-              "(like all participant data) of a RE-announcement is ignored, the first announced lease stays in force "
-              "(C17_lease_update_counterexample). The world around it (Model/SpdpWorld.lean: who announces when - creation, answer to every "
+              "(C17_ignored_forever); an acceptable re-announcement refreshes the stored entry, so the lease in force is the one announced last (C17_lease_refresh; this was defect D-spdp-1, repaired by fixes/D-spdp-1.patch, regression witness C17_lease_update_old_counterexample). The world around it (Model/SpdpWorld.lean: who announces when - creation, answer to every "
               "new discovery, period -, multicast delivery per domain id, loss, silence, deletion, timers) is tied to the real stack by a "
               "differential run on the simulator in which every discovered-participant list is predicted exactly, including the nanosecond "
               "at which a lease runs out; an independent oracle states isolation, discovery, both lease bounds and ignoring directly on the "
